@@ -34,7 +34,7 @@ class ArgsFormat(object):
             base_format = builder.base_format
 
         self._base_format = base_format
-        self._command_names = builder.get_command_names(False)
+        self._command_names = list(builder.get_command_names(False))
         self._command_options = {}
         self._command_options_by_short_name = {}
         self._arguments = builder.get_arguments(False)
@@ -75,7 +75,7 @@ class ArgsFormat(object):
         return False
 
     def get_command_names(self, include_base=True):  # type: (bool) -> List[CommandName]
-        command_names = self._command_names
+        command_names = list(self._command_names)
 
         if include_base and self._base_format:
             command_names = self._base_format.get_command_names() + command_names
